@@ -457,6 +457,28 @@ int g_blk_bad;
                                       || (g_rb == rb && g_b >= a + FN(self) / 2 - self->half_fan_size && g_b < b)) ? 1 : 0))   \
   __CPROVER_decreases(a + FN(self) / 2 + self->half_fan_size + 1 - b)
 
+/* ---- make_fan_sum_data(Array<2,float>&, const FanProjData&): every detector (ra, a) receives the fan sum of exactly that detector, once ---- */
+#define FANSUM_SET(i0, i1, sra, sa)                                                                                   \
+  do                                                                                                                  \
+    {                                                                                                                 \
+      __CPROVER_assert((i0) >= 0 && (i0) < self->num_rings && (i1) >= 0 && (i1) < FN(self), "data_fan_sums[ra][a] inside its ranges"); \
+      __CPROVER_assert((sra) == (i0) && (sa) == (i1), "the fan sum stored for a detector is that detector's own");     \
+      if ((i0) == g_ra && (i1) == g_a) ++g_acc;                                                                        \
+    }                                                                                                                 \
+  while (0)
+#define CONTRACT_K_make_fan_sum_data                                                                                  \
+  __CPROVER_requires(__CPROVER_is_fresh(self, sizeof(*self)) && FAN_VALID(self) && G_BOUNDED && g_acc == 0)            \
+  __CPROVER_assigns(g_acc)                                                                                             \
+  __CPROVER_ensures(g_acc == (EFF_GA_IN ? 1 : 0))
+#define LC_K_make_fan_sum_data_0                                                                                      \
+  __CPROVER_assigns(ra, g_acc)                                                                                         \
+  __CPROVER_loop_invariant(ra >= 0 && ra <= self->num_rings && g_acc == (EFF_DONE_RA(ra) ? 1 : 0))                     \
+  __CPROVER_decreases(self->num_rings - ra)
+#define LC_K_make_fan_sum_data_1                                                                                      \
+  __CPROVER_assigns(a, g_acc)                                                                                          \
+  __CPROVER_loop_invariant(a >= 0 && a <= FN(self) && g_acc == (EFF_DONE_A(ra, a) ? 1 : 0))                            \
+  __CPROVER_decreases(FN(self) - a)
+
 /* ---- FanProjData range accessors: the loop bounds of every apply_* / iterate_* / make_*_data function ----
    The stored index ranges (constructor kernel K_fan_ctor): level 0 [0,R-1]; level 1 [0,N-1]; level 2 of (ra,a): [ra, min(ra+D,R-1)];
    level 3 of (ra,a,rb): [a+N/2-h, a+N/2+h]. RNGk reads a stored range (index arguments must be inside the level above).
